@@ -151,10 +151,22 @@ def tv_pair(P, P2, N=2, sigs=None, rtypes=None, env_builder=None, extra_env=None
     if out_err is not None:
         # the output is not even encodable (ill-typed / unsupported): decide by concrete differential runs on the Q0 witness
         st.enc_out += 1
-        a, b = replay_pair(cx, m0, P, P2, extra_env)
-        st.disagreements_checked += 1
-        if a[0] == "ok" and a != b:
-            return VIOLATION, {"kind": "output not encodable (%s) and differs concretely" % out_err, "input_result": repr(a)[:300], "output_result": repr(b)[:300], "model": describe_model(cx, m0)}
+        models = [m0]
+        # witnesses with non-empty collections exercise more of the output
+        for extra in ([ln >= 1 for ln in cx.lens], [ln == cx.N for ln in cx.lens[:1]]):
+            s.push()
+            s.add(side_in)
+            s.add(cx.distinctness())
+            s.add(okP)
+            s.add(extra)
+            if _check(s, st) == "sat":
+                models.append(s.model())
+            s.pop()
+        for mm in reversed(models):
+            a, b = replay_pair(cx, mm, P, P2, extra_env)
+            st.disagreements_checked += 1
+            if a[0] == "ok" and a != b:
+                return VIOLATION, {"kind": "output not encodable (%s) and differs concretely" % out_err, "input_result": repr(a)[:300], "output_result": repr(b)[:300], "model": describe_model(cx, mm)}
         return INCONCLUSIVE, {"why": "output not encodable: %s" % out_err}
     okN = z3.Not(z3.Or(en)) if en else z3.BoolVal(True)
     base = list(cx.side) + cx.distinctness()
